@@ -214,7 +214,11 @@ func TestChild(t *testing.T) {
 		debug.SetGCPercent(-1) // not even an automatic collection
 	}
 	res := runHistory(&h, noGC)
-	out, _ := json.Marshal(childOut{res.Violation, res.Harness, res.Labels})
+	printChildResult(childOut{res.Violation, res.Harness, res.Labels})
+}
+
+func printChildResult(o childOut) {
+	out, _ := json.Marshal(o)
 	fmt.Printf("\nC09RESULT %s\n", out)
 }
 
@@ -373,6 +377,17 @@ func TestReplay(t *testing.T) {
 	var h history
 	if _, err := evid.LoadReplay(p, &h); err != nil {
 		t.Fatal(err)
+	}
+	if h.Stress != nil {
+		defer runtime.GOMAXPROCS(runtime.GOMAXPROCS(4))
+		// a schedule-dependent failure: give it several chances to show up again
+		for i := 0; i < 5; i++ {
+			if msg := runStress(h.Stress); msg != "" {
+				evid.Violation("replay", &h, "concurrent compile/instantiate/close (%+v): %s", *h.Stress, msg)
+				t.Fatal(msg)
+			}
+		}
+		return
 	}
 	res := runHistory(&h, false)
 	if res.Harness != "" {
